@@ -110,6 +110,8 @@ LinEffect(t, c, nested) ==
          /\ now' = now + c.d /\ th' = setres(NoRes, th) /\ UNCHANGED <<S, bal>>
     [] c.op = "BulkStore" ->
          /\ bal' = bal \cup (c.lo .. c.hi) /\ th' = setres(NoRes, th) /\ UNCHANGED <<S, now>>
+    [] c.op = "BulkDelete" ->
+         /\ bal' = bal \ (c.lo .. c.hi) /\ th' = setres(NoRes, th) /\ UNCHANGED <<S, now>>
     [] c.op = "SetEvictedCallback" ->
          LET Sn == CNext(S, c, now)
          IN /\ S' = Sn /\ th' = InformCb(setres(NoRes, th), Sn.cb) /\ UNCHANGED <<now, bal>>
@@ -154,7 +156,7 @@ ResultOK(A, c, res, ev) ==
     [] c.op = "GetOrCompute" -> On(A, "view", ev.rv = res.rv /\ ev.ok = res.ok) /\ On(A, "fn", ev.n = res.n)
     [] c.op = "Compute" -> On(A, "view", ev.rv = res.rv /\ ev.ok = res.ok /\ ev.fo = res.fo /\ ev.fl = res.fl) /\ On(A, "fn", ev.n = 1)
     [] c.op = "DefaultExpiration" -> On(A, "instant", ev.x = res.x)
-    [] c.op = "BulkLoad" -> On(A, "view", ev.n = ev.x)
+    [] c.op \in {"BulkLoad", "BulkDelete"} -> On(A, "view", ev.n = ev.x)
     [] OTHER -> TRUE
 
 \* a call may return only when every eviction it queued has fired (unless no callback was in force at some point)
